@@ -3,6 +3,7 @@ package main
 import (
 	"go/ast"
 	"go/types"
+	"strings"
 )
 
 // C07 — only eligible allocations are chosen as preemption victims.
@@ -101,8 +102,60 @@ func markedSlice(p *Prog, fn *Func, s ast.Expr, at ast.Node) (markShape, string)
 		}
 	}
 	// (2) all-or-nothing loop over the same variable before `at`
+	found, why := markLoop(p, fn, obj, id.Name, at)
+	if found != markNone {
+		return found, why
+	}
+	// (3) the same loop in a private helper that is handed the slice and whose success is required before `at`
+	var allCalls []*ast.CallExpr
+	ast.Inspect(fn.Decl.Body, func(n ast.Node) bool {
+		if cl, ok := n.(*ast.CallExpr); ok {
+			allCalls = append(allCalls, cl)
+		}
+		return true
+	})
+	for _, cl := range allCalls {
+		if cl.End() > at.Pos() {
+			continue
+		}
+		callee := p.Callee(cl)
+		if callee == nil || p.FuncOf[callee] == nil {
+			continue
+		}
+		h := p.FuncOf[callee]
+		for k, arg := range cl.Args {
+			aid, ok := unparen(arg).(*ast.Ident)
+			if !ok || p.ObjOf(aid) != obj {
+				continue
+			}
+			po := paramObj(p, h, k)
+			if po == nil || h.Decl.Body == nil {
+				continue
+			}
+			hf, hwhy := markLoop(p, h, po, po.Name(), h.Decl.Body.List[len(h.Decl.Body.List)-1])
+			if hf == markNone {
+				why = hwhy
+				continue
+			}
+			// the helper's failure answer must stop the caller
+			st := p.StateAt(fn, at)
+			okAns := p.Holds(st, anyReq(
+				p.CallAtom(true, func(c2 *ast.CallExpr, a Atom) bool { return c2 == cl }, h.Name),
+				p.ResultNilAtom(true, func(c2 *ast.CallExpr, a Atom) bool { return c2 == cl }, h.Name)))
+			if okAns {
+				return markAllOrNothing, ""
+			}
+			why = "the answer of " + h.Name + " is not required before the victims are announced"
+		}
+	}
+	return found, why
+}
+
+// markLoop: fn contains, before `at`, a loop over the slice variable obj that marks every element and leaves the
+// function (return) as soon as one cannot be marked.
+func markLoop(p *Prog, fn *Func, obj types.Object, name string, at ast.Node) (markShape, string) {
 	found := markNone
-	why := "no loop over " + id.Name + " marks its elements before they are announced"
+	why := "no loop over " + name + " marks its elements before they are announced"
 	ast.Inspect(fn.Decl.Body, func(n ast.Node) bool {
 		rs, ok := n.(*ast.RangeStmt)
 		if !ok || rs.End() > at.Pos() {
@@ -121,12 +174,21 @@ func markedSlice(p *Prog, fn *Func, s ast.Expr, at ast.Node) (markShape, string)
 			return true
 		}
 		for _, s := range rs.Body.List {
-			as, ok := s.(*ast.AssignStmt)
-			if !ok || len(as.Rhs) != 1 {
-				continue
+			var call *ast.CallExpr
+			var initOf *ast.IfStmt
+			switch x := s.(type) {
+			case *ast.AssignStmt:
+				if len(x.Rhs) == 1 {
+					call, _ = unparen(x.Rhs[0]).(*ast.CallExpr)
+				}
+			case *ast.IfStmt:
+				// if err := v.MarkPreempted(); err != nil { ... }
+				if as, isA := x.Init.(*ast.AssignStmt); isA && len(as.Rhs) == 1 {
+					call, _ = unparen(as.Rhs[0]).(*ast.CallExpr)
+					initOf = x
+				}
 			}
-			call, ok := unparen(as.Rhs[0]).(*ast.CallExpr)
-			if !ok || !p.IsCall(call, "objects.Allocation.MarkPreempted") {
+			if call == nil || !p.IsCall(call, "objects.Allocation.MarkPreempted") {
 				continue
 			}
 			if rcv, ok := unparen(Recv(call)).(*ast.Ident); !ok || p.ObjOf(rcv) != p.ObjOf(vid) {
@@ -135,7 +197,7 @@ func markedSlice(p *Prog, fn *Func, s ast.Expr, at ast.Node) (markShape, string)
 			// find the error branch
 			for _, s2 := range rs.Body.List {
 				ifs, ok := s2.(*ast.IfStmt)
-				if !ok || ifs.Pos() < as.End() {
+				if !ok || (ifs != initOf && ifs.Pos() < s.End()) {
 					continue
 				}
 				if len(ifs.Body.List) == 0 {
@@ -178,7 +240,10 @@ func rulesC07(c *Ctx) {
 	}
 	sites := []site{
 		{"objects.Queue.findEligiblePreemptionVictims", func(fn *Func) func(e ast.Expr) bool {
-			return func(e ast.Expr) bool { _, ok := p.fieldSel(e, "objects.QueuePreemptionSnapshot.PotentialVictims"); return ok }
+			return func(e ast.Expr) bool {
+				_, ok := p.fieldSel(e, "objects.QueuePreemptionSnapshot.PotentialVictims")
+				return ok
+			}
 		}, "queue preemption"},
 		{"objects.PreemptionContext.filterAllocations", func(fn *Func) func(e ast.Expr) bool {
 			return func(e ast.Expr) bool { return p.recvField(fn, e, "objects.PreemptionContext.allocations") }
@@ -231,7 +296,7 @@ func rulesC07(c *Ctx) {
 				}))
 				chk("different leaf than the ask", p.CmpAtom(func(op tokenT, x, y Term) bool {
 					cl, ok := unparen(x.E).(*ast.CallExpr)
-					return op == tokNEQ && ok && p.IsCall(cl, "objects.Queue.GetQueuePath") && p.isRecvExpr(fn, Recv(cl)) && p.isParam(fn, y.E, 1)
+					return op == tokNEQ && ok && p.IsCall(cl, "objects.Queue.GetQueuePath") && p.isRecvExpr(fn, Recv(cl)) && p.isParam(fn, y.E, p.paramOfType(fn, "string"))
 				}))
 				chk("victim queue not within its guarantee", func(a Atom) bool {
 					// !(remaining != nil && StrictlyGreaterThanOrEquals(remaining, Zero)) known
@@ -369,7 +434,9 @@ func rulesC07(c *Ctx) {
 		calls := p.callsIn(fn, "objects.Preemptor.TryPreemption")
 		for _, call := range calls {
 			st := p.StateAt(fn, call)
-			pre := p.Holds(st, p.CallAtom(true, func(cl *ast.CallExpr, a Atom) bool { return Recv(cl) != nil && p.Same(a.term(Recv(cl)), T(Recv(call), st)) }, "objects.Preemptor.CheckPreconditions"))
+			pre := p.Holds(st, p.CallAtom(true, func(cl *ast.CallExpr, a Atom) bool {
+				return Recv(cl) != nil && p.Same(a.term(Recv(cl)), T(Recv(call), st))
+			}, "objects.Preemptor.CheckPreconditions"))
 			c.Check("C07.b", "preconditions checked before tried", call, pre, "TryPreemption called without CheckPreconditions() == true on the same preemptor")
 			att := p.Holds(st, p.CmpAtom(func(op tokenT, x, y Term) bool {
 				v, isC := p.ConstInt(y.E)
@@ -443,14 +510,18 @@ func rulesC07(c *Ctx) {
 			un := p.callsIn(fn, "objects.Allocation.MarkUnPreempted")
 			okRb := false
 			for _, u := range un {
-				st := p.StateAt(fn, u)
+				owner := p.EnclosingFunc(u.Pos()) // fn itself or the private helper that holds the marking loop
+				if owner == nil {
+					continue
+				}
+				st := p.StateAt(owner, u)
 				if src, _, isRange := p.RangeSource(T(Recv(u), st)); isRange {
 					// ranged list must be the list of successfully marked ones (appended after a successful mark)
 					if rid, ok := unparen(src.E).(*ast.Ident); ok {
-						aps := appendSites(p, fn, func(e ast.Expr) bool { eid, ok := unparen(e).(*ast.Ident); return ok && p.ObjOf(eid) == p.ObjOf(rid) })
+						aps := appendSites(p, owner, func(e ast.Expr) bool { eid, ok := unparen(e).(*ast.Ident); return ok && p.ObjOf(eid) == p.ObjOf(rid) })
 						okRb = len(aps) > 0
 						for _, ap := range aps {
-							s2 := p.StateAt(fn, ap)
+							s2 := p.StateAt(owner, ap)
 							if !p.Holds(s2, p.ResultNilAtom(true, onAlloc(p, T(ap.Args[1], s2)), "objects.Allocation.MarkPreempted")) {
 								okRb = false
 							}
@@ -480,7 +551,7 @@ func rulesC07(c *Ctx) {
 			continue
 		}
 		for _, w := range p.FieldWrites(p.Field(pr.field)) {
-			if w.Fn != fn {
+			if !p.inFn(w.Fn, fn) {
 				continue
 			}
 			st := p.StateAt(fn, w.Node)
@@ -612,43 +683,160 @@ func rulesC08(c *Ctx) {
 			floor = 1
 		}
 		c.Floor("C08.b", "victims kept in "+fnName, n, floor)
-		// restore on the else branch
+		// every path from the statement that takes the victim off its queue snapshot to the end of the loop
+		// iteration either keeps the victim or puts the amount back on the same snapshot (whatever the shape:
+		// else branch, early continue, break)
 		nIf := 0
-		ast.Inspect(fn.Decl.Body, func(nn ast.Node) bool {
-			ifs, ok := nn.(*ast.IfStmt)
-			if !ok {
-				return true
+		for _, first := range p.callsInShallow(fn, "objects.QueuePreemptionSnapshot.RemoveAllocation") {
+			loop, _ := p.enclosingLoop(first).(*ast.RangeStmt)
+			es, isStmt := p.Parent(first).(*ast.ExprStmt)
+			if loop == nil || !isStmt || len(first.Args) != 1 || Recv(first) == nil {
+				continue
 			}
-			has := false
-			ast.Inspect(ifs.Cond, func(m ast.Node) bool {
-				if cl, ok := m.(*ast.CallExpr); ok && p.IsCall(cl, "objects.isVictimQueueOverGuaranteed") {
-					has = true
+			gc, isC := unparen(first.Args[0]).(*ast.CallExpr)
+			if !isC || Recv(gc) == nil {
+				continue
+			}
+			vic := p.Src(Recv(gc))
+			// only the tentative removal of the loop's own element from its victim queue: the first removal of a
+			// loop body that goes on to test the guarantee (not the undo of a give to the ask queue, not the
+			// definitive removal of the victims already chosen for the node)
+			if rv, isID := loop.Value.(*ast.Ident); !isID || rv.Name != vic {
+				continue
+			}
+			tentative, isFirst := false, true
+			ast.Inspect(loop.Body, func(m ast.Node) bool {
+				if cl, isCall := m.(*ast.CallExpr); isCall {
+					if p.IsCall(cl, "objects.isVictimQueueOverGuaranteed") {
+						tentative = true
+					}
+					if p.IsCall(cl, "objects.QueuePreemptionSnapshot.RemoveAllocation") && cl.Pos() < first.Pos() {
+						isFirst = false
+					}
 				}
 				return true
 			})
-			if !has {
-				return true
+			if !tentative || !isFirst {
+				continue
 			}
-			nIf++
-			restored := false
-			if eb, ok := ifs.Else.(*ast.BlockStmt); ok {
-				for _, s := range eb.List {
-					if es, ok := s.(*ast.ExprStmt); ok {
-						if cl, ok := es.X.(*ast.CallExpr); ok && p.IsCall(cl, "objects.QueuePreemptionSnapshot.AddAllocation") {
-							// the removal before the if was on the same snapshot with the same amount
-							prev := p.PrecededBy(fn, ifs, func(m ast.Node) bool {
-								rc, ok := m.(*ast.CallExpr)
-								return ok && p.IsCall(rc, "objects.QueuePreemptionSnapshot.RemoveAllocation") && p.SameOperand(fn, Recv(rc), rc, Recv(cl), cl) && p.SameOperand(fn, rc.Args[0], rc, cl.Args[0], cl)
-							})
-							restored = prev != nil
+			settles := func(n ast.Node) bool {
+				ok := false
+				ast.Inspect(n, func(m ast.Node) bool {
+					dc, isCall := m.(*ast.CallExpr)
+					if !isCall {
+						return true
+					}
+					if p.IsCall(dc, "objects.QueuePreemptionSnapshot.AddAllocation") && Recv(dc) != nil && len(dc.Args) == 1 &&
+						p.Src(Recv(dc)) == p.Src(Recv(first)) && p.Src(dc.Args[0]) == p.Src(first.Args[0]) {
+						ok = true
+					}
+					if id, isID := unparen(dc.Fun).(*ast.Ident); isID && id.Name == "append" && len(dc.Args) == 2 && p.Src(dc.Args[1]) == vic {
+						ok = true
+					}
+					return true
+				})
+				return ok
+			}
+			// walk outwards from the removal to the loop body: the rest of each enclosing block follows it
+			var bad []ast.Node
+			undecided := ""
+			var explore func(list []ast.Stmt, settled bool) (fall bool, fallSettled []bool)
+			explore = func(list []ast.Stmt, settled bool) (bool, []bool) {
+				cur := []bool{settled}
+				for _, st := range list {
+					var next []bool
+					for _, sd := range cur {
+						switch x := st.(type) {
+						case *ast.IfStmt:
+							if x.Init != nil && settles(x.Init) {
+								sd = true
+							}
+							f1, s1 := explore(x.Body.List, sd)
+							if f1 {
+								next = append(next, s1...)
+							}
+							switch e := x.Else.(type) {
+							case nil:
+								next = append(next, sd)
+							case *ast.BlockStmt:
+								if f2, s2 := explore(e.List, sd); f2 {
+									next = append(next, s2...)
+								}
+							case *ast.IfStmt:
+								if f2, s2 := explore([]ast.Stmt{e}, sd); f2 {
+									next = append(next, s2...)
+								}
+							}
+						case *ast.BranchStmt, *ast.ReturnStmt:
+							if !sd {
+								bad = append(bad, st)
+							}
+						case *ast.ForStmt, *ast.RangeStmt, *ast.SwitchStmt, *ast.TypeSwitchStmt, *ast.SelectStmt:
+							if settles(st) {
+								undecided = "the keep/restore step sits inside a nested loop or switch at " + p.Pos(st)
+							}
+							next = append(next, sd)
+						default:
+							next = append(next, sd || settles(st))
 						}
 					}
+					// collapse
+					seenT, seenF := false, false
+					cur = cur[:0]
+					for _, v := range next {
+						if v && !seenT {
+							seenT = true
+							cur = append(cur, true)
+						}
+						if !v && !seenF {
+							seenF = true
+							cur = append(cur, false)
+						}
+					}
+					if len(cur) == 0 {
+						return false, nil
+					}
+				}
+				return true, cur
+			}
+			var node ast.Node = es
+			fallStates := []bool{false}
+			for node != ast.Node(loop.Body) && node != nil {
+				par := p.Parent(node)
+				var rest []ast.Stmt
+				switch b := par.(type) {
+				case *ast.BlockStmt:
+					for i, st := range b.List {
+						if ast.Node(st) == node {
+							rest = b.List[i+1:]
+						}
+					}
+					var nf []bool
+					for _, sd := range fallStates {
+						if f, ss := explore(rest, sd); f {
+							nf = append(nf, ss...)
+						}
+					}
+					fallStates = nf
+				}
+				node = par
+				if len(fallStates) == 0 {
+					break
 				}
 			}
-			c.Check("C08.b", "snapshot restored when the victim is rejected in "+shortFn(fnName), ifs, restored, "rejected victim: the queue snapshot is not restored with AddAllocation(res(victim)) matching the earlier RemoveAllocation")
-			return true
-		})
-		c.Floor("C08.b", "guarantee tests in "+fnName, nIf, 1)
+			for _, sd := range fallStates {
+				if !sd {
+					bad = append(bad, loop.Body)
+				}
+			}
+			nIf++
+			c.Check("C08.b", "snapshot restored when the victim is rejected in "+shortFn(fnName), first, len(bad) == 0 && undecided == "", "a loop iteration that removed %s from %s can end (at %s) without keeping the victim or restoring the snapshot with AddAllocation(%s) %s", p.Src(first.Args[0]), p.Src(Recv(first)), posList(p, bad), p.Src(first.Args[0]), undecided)
+		}
+		nIfFloor := 2
+		if fnName == "objects.Preemptor.calculateAdditionalVictims" {
+			nIfFloor = 1
+		}
+		c.Floor("C08.b", "tentative removals followed to the end of the iteration in "+fnName, nIf, nIfFloor)
 	}
 
 	// ---- C08.c preempting ledger
@@ -691,7 +879,7 @@ func rulesC08(c *Ctx) {
 		c.Check("C08.c", shortFn(nm)+" recurses to the direct parent", fn.Decl, rec, "%s no longer propagates to sq.parent", nm)
 		own := false
 		for _, w := range p.FieldWrites(p.Field("objects.Queue.preemptingResource")) {
-			if w.Fn == fn {
+			if p.inFn(w.Fn, fn) {
 				if cl, ok := unparen(w.Arg).(*ast.CallExpr); ok && len(cl.Args) == 2 && p.recvField(fn, cl.Args[0], "objects.Queue.preemptingResource") && p.isParam(fn, cl.Args[1], 0) {
 					if (nm == "objects.Queue.IncPreemptingResource") == p.IsCall(cl, "resources.Add") {
 						own = true
@@ -732,7 +920,7 @@ func rulesC08(c *Ctx) {
 	if fn := c.MustFunc("C08.d", "objects.Queue.tryAcquirePreemption"); fn != nil {
 		n := 0
 		for _, w := range p.FieldWrites(p.Field("objects.Queue.isQuotaPreemptionRunning")) {
-			if w.Fn != fn || !p.isConstBool(w.Arg, true) {
+			if !p.inFn(w.Fn, fn) || !p.isConstBool(w.Arg, true) {
 				continue
 			}
 			n++
@@ -745,7 +933,9 @@ func rulesC08(c *Ctx) {
 			chk("usage above the maximum", p.CallAtom(false, func(cl *ast.CallExpr, a Atom) bool {
 				return p.recvField(fn, Recv(cl), "objects.Queue.maxResource") && len(cl.Args) == 1 && p.recvField(fn, cl.Args[0], "objects.Queue.allocatedResource")
 			}, "resources.Resource.StrictlyGreaterThanOrEqualsOnlyExisting"))
-			chk("start time set", p.CallAtom(false, func(cl *ast.CallExpr, a Atom) bool { return p.recvField(fn, Recv(cl), "objects.Queue.quotaPreemptionStartTime") }, "time.Time.IsZero"))
+			chk("start time set", p.CallAtom(false, func(cl *ast.CallExpr, a Atom) bool {
+				return p.recvField(fn, Recv(cl), "objects.Queue.quotaPreemptionStartTime")
+			}, "time.Time.IsZero"))
 			chk("delay elapsed", p.CallAtom(false, func(cl *ast.CallExpr, a Atom) bool {
 				return len(cl.Args) == 1 && p.recvField(fn, cl.Args[0], "objects.Queue.quotaPreemptionStartTime")
 			}, "time.Time.Before"))
@@ -790,4 +980,12 @@ func rulesC08(c *Ctx) {
 		}
 		c.Floor("C08.d", "quota victim selections", len(aps), 1)
 	}
+}
+
+func posList(p *Prog, ns []ast.Node) string {
+	var out []string
+	for _, n := range ns {
+		out = append(out, p.Pos(n))
+	}
+	return strings.Join(out, ", ")
 }
